@@ -232,6 +232,7 @@ class ModbusRtuFramer(ModbusFramer):
                 # keep it and wait for the rest
                 _logger.debug("Frame - [{}] not ready".format(data))
                 break
+            buffered = self._buffer   # (checkFrame() empties it on a bad CRC)
             try:
                 frame_ok = self.isFrameReady() and self.checkFrame()
             except (IndexError, KeyError, struct.error):
@@ -247,9 +248,12 @@ class ModbusRtuFramer(ModbusFramer):
                     # skip only the frame addressed to another unit
                     self.advanceFrame()
             else:
+                # what is at the head of the buffer is not a frame: give up
+                # its first byte only and look again, so that the frames
+                # that were received behind the damage are not lost with it
                 _logger.debug("Frame check failed, ignoring!!")
-                self.resetFrame()
-                break
+                self._buffer = buffered[1:]
+                self._header = {}
 
     def _isFrameComplete(self):
         """
